@@ -958,6 +958,12 @@ func (e *endpoint) connect(addr tcpip.FullAddress, handshake bool, run bool) (er
 		return err
 	}
 
+	// The destination must be an address of the network protocol the
+	// connection will use.
+	if l := len(addr.Addr); l != 0 && (l == header.IPv4AddressSize) != (netProto == header.IPv4ProtocolNumber) {
+		return tcpip.ErrNoRoute
+	}
+
 	nicid := addr.NIC
 	// 判断连接的状态
 	switch e.state {
